@@ -32,6 +32,8 @@ const c15prelude = `boom := {|i| "R#{i}".p; raise ValueErr.new("dboom#{i}")}
 innerOk := {|| "I".p; defer "ID".p; "I2".p; 7}
 innerFail := {|| "F".p; defer "FD".p; raise TypeErr.new("inner"); "unreached".p}
 gmark := {|m| m.p; true}
+innerFailV := {|x| innerFail()}
+innerFailV2 := {|a, x| innerFail()}
 `
 
 // body renders the statements and returns the model's output lines and outcome.
@@ -61,6 +63,17 @@ func c15model(stmts []c15stmt, ex c15exit) (src []string, out []string, oc c15ou
 		case "hostErr":
 			src = append(src, "1 / 0")
 			oc, exited = c15outcome{isErr: true, kind: "ZeroDivisionErr", msg: "cannot be divided by 0"}, true
+		case "nestedFailChain":
+			// the failing nested call is made through a chain (every context except the thoughtful one passes it on)
+			src = append(src, []string{"[1]=@{|x| innerFail()}", "[1]=@^innerFailV", "[1]@{|x| innerFail()}", "1=.{|x| innerFail()}", "[1]$(0){|a, x| innerFail()}", "1&.{|x| innerFail()}",
+				"{f: m{innerFail()}}=.f", "[{f: m{innerFail()}}]=@f", "[1]&@^innerFailV", "[1]=$(0)^innerFailV2", "1.^innerFailV", "[[1]]@{|y| y=@{|x| innerFail()}}"}[ex.pos%12])
+			out = append(out, "F", "FD")
+			oc, exited = c15outcome{isErr: true, kind: "TypeErr", msg: "inner"}, true
+		case "guardRaises":
+			// the guard of a jump statement fails: the body ends there with that error (nothing is registered, no jump is made)
+			src = append(src, []string{`defer "GD".p if innerFail()`, `return 58 if innerFail()`, `raise ValueErr.new("g") if innerFail()`, `defer "GD".p if [1]=@{|x| innerFail()}`}[ex.pos%4])
+			out = append(out, "F", "FD")
+			oc, exited = c15outcome{isErr: true, kind: "TypeErr", msg: "inner"}, true
 		case "nestedFail":
 			src = append(src, "innerFail()")
 			out = append(out, "F", "FD")
@@ -225,7 +238,7 @@ func init() {
 func runC15(w *fw.W) {
 	var ip *interp.Interp
 	kinds := []string{"mark", "defer", "deferT", "deferF", "deferTv", "deferFv", "deferRaise", "call"}
-	exits := []string{"none", "return", "returnIfTrue", "returnIfFalse", "raise", "hostErr", "nestedFail"}
+	exits := []string{"none", "return", "returnIfTrue", "returnIfFalse", "raise", "hostErr", "nestedFail", "nestedFailChain", "guardRaises"}
 	maxN := w.Pick(3, 4)
 	// enumerate layouts; one case per (n, first statement kind, context)
 	var layouts [][]c15stmt
